@@ -89,6 +89,16 @@ void env_dump_trace(FILE *o) {
                 trace[i].err, trace[i].dev ? trace[i].dev : '-');
 }
 
+int env_snprint_trace(char *dst, size_t cap) {
+    static const char rn[] = "-iotsgx";
+    size_t n = 0;
+    for(int i = 0; i < ntrace && n + 80 < cap; i++)
+        n += snprintf(dst + n, cap - n, "%s%d:%c:%c:%ld:%ld:%c", i ? "," : "", trace[i].k, trace[i].op, rn[trace[i].role], trace[i].req, trace[i].res,
+                      trace[i].dev ? trace[i].dev : '-');
+    if(n < cap) dst[n] = 0;
+    return ntrace;
+}
+
 void env_print_trace(FILE *o) {
     static const char rn[] = "-iotsgx";
     fprintf(o, " trace=");
